@@ -29,8 +29,8 @@ Theorem C04_validator_sound : forall b cut fuel ds qs rs stages fexpr L,
        let s := map (hm (eval env)) st in
        step (zalg env) (freeze b cut) s = s /\
        forall sg, In sg stages ->
-         zget env (nth (r_ent sg) (step (zalg env) b s) []) (r_sig sg)
-         = eval env (get talg (nth (r_ent sg) st' []) (r_sig sg))).
+         zget env (nth (sg_ent sg) (step (zalg env) b s) []) (sg_sig sg)
+         = eval env (get talg (nth (sg_ent sg) st' []) (sg_sig sg))).
 Proof. exact check_ring_sound. Qed.
 Print Assumptions C04_validator_sound.
 
